@@ -76,7 +76,7 @@ def parseElems (s : String) : Option (List ElemSpec) :=
       else none) (some [])
 
 def showNats (sep : String) (xs : List Nat) : String := sep.intercalate (xs.map toString)
-def showGroups (gs : List (List Nat)) : String := "&".intercalate (gs.map (showNats ";"))
+def showGroups (gs : List (List Nat)) : String := "&".intercalate (gs.map (fun g => if g.isEmpty then "_" else showNats ";" g))
 
 def showVal : Val → String
   | .none => "N" | .atom n => s!"A{n}" | .multi xs => "M" ++ showNats ";" xs | .resp n => s!"R{n}"
